@@ -81,6 +81,7 @@ func (c *LimitParallelRequests) acquireEndpoint(ctx context.Context, endpointLim
 	})
 	select {
 	case <-ctx.Done():
+		verifYield(c, "ep-ctx-done")
 		c.cancelEndpoint(endpointLimitKey, reqChan)
 		return ctx.Err()
 	case <-reqChan:
